@@ -114,12 +114,18 @@ func genObjects(t *rapid.T, s *fshelper.Spec, n int, small bool) {
 }
 
 // genSequential: 3-9 operations on the main thread, last objects reserved as probes.
-func genSequential(t *rapid.T) *workload {
+func genSequential(t *rapid.T, first bool) *workload {
 	w := &workload{kind: "sequential"}
 	s := &w.spec
 	const n = 14
 	s.Depth = rapid.IntRange(0, 2).Draw(t, "depth")
 	s.Generic = rapid.IntRange(0, 3).Draw(t, "writer") == 0
+	if first {
+		// first workload of a shard: writer by shard number (both writers are covered even when the time budget
+		// cuts a run down to one workload per shard)
+		k, _ := ev.Shard()
+		s.Generic = k%2 == 1
+	}
 	s.CntLim = rapid.SampledFrom([]int{2, 3, 4, 8}).Draw(t, "cntLim")
 	s.Thr = rapid.SampledFrom([]int{1024, 4096}).Draw(t, "thr")
 	// a few hundred bytes: most combined writes cross the size limit (members are 150-400 bytes)
@@ -681,7 +687,7 @@ func TestC13Sequential(t *testing.T) {
 	budget := fshelper.NewBudget(50*time.Second, 0.6)
 	cases := 0
 	rapid.Check(t, func(t *rapid.T) {
-		w := genSequential(t)
+		w := genSequential(t, cases == 0)
 		order := rapid.Uint64().Draw(t, "caseOrder")
 		if cases > 0 && budget.Exceeded() {
 			rec.Label("workload-skipped-time-budget") // reported, never a verdict
@@ -722,11 +728,15 @@ func TestC13Sequential(t *testing.T) {
 		// only for callers that treat a short count as an error, as the Linux writer's unix.Write/unix.Writev do;
 		// os.File.Write of the generic writer loops and would append the REST after bytes that were never written –
 		// an artefact of the injection technique, therefore not generated for the generic writer.)
-		for _, sc := range []string{"writev", "write"} {
-			if n := tc.total[sc] - tc.pre[sc]; n > 0 && !w.spec.Generic {
-				k := tc.pre[sc] + 1 + rapid.IntRange(0, n-1).Draw(t, "shortWriteAt")
-				rv := int64(rapid.IntRange(1, 37).Draw(t, "shortWriteLen"))
-				faults = append(faults, fault{inj: []sysinject.Inject{{Syscall: sc, Retval: &rv, When: fmt.Sprint(k)}}, tag: "short-write"})
+		if !w.spec.Generic {
+			rv := int64(rapid.IntRange(1, 37).Draw(t, "shortWriteLen"))
+			// every write() of the workload (single-file writer, objects above the threshold) and one sampled writev()
+			for k := tc.pre["write"] + 1; k <= tc.total["write"]; k++ {
+				faults = append(faults, fault{inj: []sysinject.Inject{{Syscall: "write", Retval: &rv, When: fmt.Sprint(k)}}, tag: "short-write"})
+			}
+			if n := tc.total["writev"] - tc.pre["writev"]; n > 0 {
+				k := tc.pre["writev"] + 1 + rapid.IntRange(0, n-1).Draw(t, "shortWriteAt")
+				faults = append(faults, fault{inj: []sysinject.Inject{{Syscall: "writev", Retval: &rv, When: fmt.Sprint(k)}}, tag: "short-write"})
 			}
 		}
 		// double faults: two different syscalls
